@@ -444,6 +444,46 @@ func r05e(c *an.Ctx) {
 			bad = true
 		}
 	})
+	// the merged result is a fresh allocation: no element store goes through a slice that aliases a parameter
+	alias := false
+	var aliasPos token.Pos
+	var rootIsParam func(v ssa.Value, depth int) bool
+	rootIsParam = func(v ssa.Value, depth int) bool {
+		if depth > 10 {
+			return false
+		}
+		switch x := v.(type) {
+		case *ssa.Parameter:
+			return true
+		case *ssa.Slice:
+			return rootIsParam(x.X, depth+1)
+		case *ssa.Phi:
+			for _, e := range x.Edges {
+				if e != ssa.Value(x) && rootIsParam(e, depth+1) {
+					return true
+				}
+			}
+		case *ssa.Call:
+			if an.CalleeName(&x.Call) == "builtin.append" {
+				// append may return its first operand's backing array
+				return rootIsParam(x.Call.Args[0], depth+1)
+			}
+		case *ssa.ChangeType:
+			return rootIsParam(x.X, depth+1)
+		}
+		return false
+	}
+	an.Instrs(fn, func(in ssa.Instruction) {
+		if st, ok := in.(*ssa.Store); ok {
+			if ia, isIA := st.Addr.(*ssa.IndexAddr); isIA && rootIsParam(ia.X, 0) {
+				alias = true
+				aliasPos = st.Pos()
+			}
+		}
+	})
+	c.Subject()
+	c.Ob("core/task/constraint.Constraints.MergeParent|result-does-not-alias-operands", aliasPos, !alias,
+		"MergeParent writes an element through a slice that shares its backing array with one of its operands: the override is written into the caller's constraints (e.g. the cached task class), so later descriptors of that class are matched against another role's value")
 	c.Ob("core/task/constraint.Constraints.MergeParent|override-from-receiver", fn.Pos(), okOverride && !bad,
 		"inside the merge loop, entries written into the merged result must come from the receiver (nearer) only (fromReceiver=%v, fromParentOnly=%v)", okOverride, bad)
 	r05eRole(c)
